@@ -878,7 +878,11 @@ fn main() {
                 break;
             }
             let mut r = Rng::for_case(opts.seed ^ 0x715F, i);
-            let src = if i % 3 == 2 { listgen::ListGen::new(&mut r).program_shapes() } else { listgen::ListGen::new(&mut r).program() };
+            let src = match i % 6 {
+                2 | 5 => listgen::ListGen::new(&mut r).program_shapes(),
+                3 => listgen::ListGen::new(&mut r).program_partials(),
+                _ => listgen::ListGen::new(&mut r).program(),
+            };
             let p = match from_real::convert_source(&src) {
                 Ok(p) => p,
                 Err(e) => {
@@ -898,6 +902,9 @@ fn main() {
                     ev.hit("rectypes.agree");
                     if src.starts_with("'s = ") {
                         ev.hit("rectypes.family-shapes");
+                    }
+                    if src.starts_with("'hx = ") {
+                        ev.hit("rectypes.family-partial-parameters");
                     }
                     if src.contains("'tree {") {
                         ev.hit("rectypes.with-tree-function");
